@@ -231,6 +231,51 @@ def r4_operator_semantics(ctx, cls, mod, methods, unresolved=()):
                           }.get(kind, "operand classes with that behaviour"))
 
 
+CMP_AST = {'eq': ast.Eq, 'ne': ast.NotEq, 'lt': ast.Lt, 'le': ast.LtE, 'gt': ast.Gt, 'ge': ast.GtE}
+
+
+def r4c_comparisons(ctx, cls, mod, methods):
+    ctx.rule('R4c', "each rich comparison of the proxy applies exactly its own operator to the unwrapped pair (abstract "
+                    "execution with symbolic operands, other operand plain or proxied): deriving > from <= or != from "
+                    "== is wrong for partially ordered values (sets, NaN) and for values with their own __ne__")
+    names = {v: k for k, v in CMP_AST.items()}
+    for op in COMPARISONS:
+        name = '__%s__' % op
+        if name not in methods:
+            continue
+        fn = mod.func('SandboxResult.' + name)
+        ctx.analysed_function(mod, fn)
+        for other_proxied in (False, True):
+            printed = []
+            fd = new_fd(ctx, mod, printed)
+            fd.compare_hook = lambda o, a, b: ('cmp', names[type(o)], a, b) if type(o) in names else NotImplemented
+            val, oth = make_val('value', {}), make_val('other', {})
+            me = make_proxy(val)
+            arg = make_proxy(oth) if other_proxied else oth
+            try:
+                got = fd.call_function(fn, [arg], bound_self=me)
+            except Raised as e:
+                got = ('raised', e.kind)
+            except Inconclusive as e:
+                raise AnalysisError("C16 R4c: %s outside the decidable fragment: %s" % (fn._qualname, e))
+            want = ('cmp', op, val, oth)
+            ok = isinstance(got, tuple) and len(got) == 4 and got[0] == 'cmp' and got[1] == op and got[2] is val \
+                and got[3] is oth
+            ctx.check(ok, 'R4c', 'SandboxResult.%s%s' % (name, ':proxied-other' if other_proxied else ''), mod, fn,
+                      "%s does not return `value %s other` on the unwrapped operands (got %s)" % (
+                          name, {'eq': '==', 'ne': '!=', 'lt': '<', 'le': '<=', 'gt': '>', 'ge': '>='}[op],
+                          _show(got)),
+                      "call('f') %s {3} for a result {1, 2}: the real comparison is False, the proxy answers True "
+                      "(partial order); same for NaN" % {'eq': '==', 'ne': '!=', 'lt': '<', 'le': '<=', 'gt': '>',
+                                                         'ge': '>='}[op])
+
+
+def _show(got):
+    if isinstance(got, tuple) and got and got[0] == 'cmp':
+        return '%r %s %r' % (got[2], got[1], got[3])
+    return repr(got)
+
+
 def _sym(op):
     return {'add': '+', 'sub': '-', 'mul': '*', 'matmul': '@', 'truediv': '/', 'floordiv': '//', 'mod': '%',
             'divmod': 'divmod', 'pow': '**', 'lshift': '<<', 'rshift': '>>', 'and': '&', 'xor': '^', 'or': '|'}[op]
@@ -333,6 +378,7 @@ def run(ctx):
     r3_exact_conversions(ctx, cls, mod)
     unresolved = r5_references(ctx, sym, cls, mod)
     r4_operator_semantics(ctx, cls, mod, methods, unresolved)
+    r4c_comparisons(ctx, cls, mod, methods)
     r6_len(ctx, mod)
     r7_operators_for_containers(ctx, cls, mod)
     ctx.assume("value classes whose __op__ and reflected __rop__ disagree with each other are not modelled")
